@@ -167,6 +167,23 @@ def model_base(which):
     return b.Plain if which == 'plain' else b.built(which)
 
 
+def pretty(x):
+    """A fingerprint (props.c18.fingerprint) in readable form."""
+    if isinstance(x, tuple) and x and x[0] in ('arr', 'sc') and isinstance(x[-1], bytes):
+        try:
+            return f'{np.frombuffer(x[-1], dtype=np.dtype(x[1])).tolist()} ({np.dtype(x[1]).name})'
+        except Exception:  # noqa: BLE001
+            pass
+    if isinstance(x, tuple) and len(x) == 2 and x[0] in ('ok', 'exc'):
+        return f'{x[0]}: {pretty(x[1])}'
+    return base().short(x)
+
+
+def nice_diff(sa, st):
+    ks = [k for k in sorted(set(sa) | set(st), key=str) if sa.get(k) != st.get(k)]
+    return ', '.join(f'{k}: {pretty(sa.get(k))} vs {pretty(st.get(k))}' for k in ks[:3])
+
+
 def int_series(a):
     return ','.join(str(int(x)) for x in np.asarray(a).tolist())
 
@@ -411,7 +428,7 @@ def run_route_case(ctx, rep, case, tcases=None):
     sa, st = b.full_state(a, skip, t), b.full_state(t, ('submodels',) if linker else ())
     if sa != st:
         rep.violate(key('twin-diverges'), f'route {route}: the instance differs from the canonical twin (the class '
-                    f'without the mixin, data under canonical names): ' + b.diff_state(sa, st) + f' (ALIASES={m})', jc)
+                    f'without the mixin, data under canonical names): ' + nice_diff(sa, st) + f' (ALIASES={m})', jc)
         return 'state'
     if linker:
         for sid in sub_t:
@@ -419,7 +436,7 @@ def run_route_case(ctx, rep, case, tcases=None):
             if ssa != b.full_state(t.submodels[sid]):
                 rep.violate(key('twin-diverges'), f'route {route}: submodel {sid!r} (built by from_dataframe with columns '
                             f'{case["sub"]["Y_label"]!r}, {case["sub"]["G_label"]!r}) differs from the twin\'s: '
-                            + b.diff_state(ssa, b.full_state(t.submodels[sid])), jc)
+                            + nice_diff(ssa, b.full_state(t.submodels[sid])), jc)
                 return 'submodel'
     if a0 is not None:
         before = b.full_state(a0, skip)
@@ -440,7 +457,7 @@ def run_route_case(ctx, rep, case, tcases=None):
     if a0 is not None and case['ops'] and route not in ('roundtrip', 'roundtrip-full'):
         if b.full_state(a0, skip) != before:
             rep.violate(key('copy-shares-state'), f'route {route}: operations on the copy changed the original: '
-                        + b.diff_state(b.full_state(a0, skip), before), jc)
+                        + nice_diff(b.full_state(a0, skip), before), jc)
             return 'shared'
     try:
         with warnings.catch_warnings():
@@ -455,9 +472,100 @@ def run_route_case(ctx, rep, case, tcases=None):
     return 'ok'
 
 
+KEY_TWO_SPELLINGS = 'ctor-two-spellings-of-one-variable:later-wins'
+
+
+def gen_two_spellings_case(rng, fixed=None):
+    if fixed is not None:
+        return dict({'part': 'ctor-two-spellings', 'base': 'plain', 'span': {'kind': 'int', 'n': 3}}, **fixed)
+    which = rng.choice(['plain', 0, 1, 2])
+    variables = list(model_base(which).NAMES)
+    for _ in range(20):
+        items, depth = route_alias_map(rng, variables)
+        m = dict(items)
+        by = spellings(m, variables)
+        multi = [v for v in variables if len(by[v]) > 1]
+        if multi:
+            break
+    else:
+        return None
+    first, second = rng.sample(by[rng.choice(multi)], 2)
+    return {'part': 'ctor-two-spellings', 'base': which, 'span': {'kind': rng.choice(['int', 'str']), 'n': 3}, 'm': items,
+            'variant': rng.choice(['kwargs', 'from_dataframe+kw']), 'first': first, 'second': second,
+            'v1': [rng.randrange(1, 50) for _ in range(3)], 'v2': [rng.randrange(50, 99) for _ in range(3)]}
+
+
+def run_two_spellings_case(ctx, rep, case, tcases=None):
+    """One variable given twice in one call, through two spellings.  The same call on the class without the mixin,
+    with the canonical name in both places, is Python's TypeError (got multiple values for keyword argument)."""
+    b = base()
+    m = dict(map(tuple, case['m']))
+    Base = model_base(case['base'])
+    A = type('Aliased', (AliasMixin, Base), {'ALIASES': dict(m)})
+    span = make_span(case['span'])
+    n = case['span']['n']
+    target = b.chain_end(m, case['first'])
+
+    def call(cls, k1, k2):
+        try:
+            if case['variant'] == 'kwargs':
+                obj = cls(span, **{k1: case['v1']}, **({k2: case['v2']} if k2 != k1 else {})) if cls is A else \
+                    cls(span, **{k1: case['v1']}, **{k2: case['v2']})
+            else:
+                obj = cls.from_dataframe(_int_frame(span, [[k1, case['v1']]], False), **{k2: case['v2']})
+            return 'instance: ' + target + '=' + int_series(obj[target])
+        except Exception as e:  # noqa: BLE001
+            return type(e).__name__
+    ra = call(A, case['first'], case['second'])
+    rt = call(Base, target, target)
+    rep.dist[f'ctor-two-spellings:{case["variant"]}:{"same" if ra == rt else "differs"}'] += 1
+    if ra != rt:
+        what = ('Model(span, **{%r: v1, %r: v2})' if case['variant'] == 'kwargs' else
+                'Model.from_dataframe(frame with the column %r, **{%r: v2})') % (case['first'], case['second'])
+        rep.violate(KEY_TWO_SPELLINGS, f'{what}: both names resolve to {target!r} (ALIASES={m}); the call returns '
+                    f'{ra} - one of the two values is dropped without a word (v1={case["v1"]}, v2={case["v2"]}); the same '
+                    f'call with the underlying variable named in both places gives {rt} on the class without the mixin', case)
+    if tcases is not None and ra.startswith('instance'):
+        cols = [[case['first'], case['v1']]] + ([[case['second'], case['v2']]] if case['variant'] == 'kwargs' else [])
+        extra = [] if case['variant'] == 'kwargs' else [[case['second'], case['v2']]]
+        vs = list(Base.NAMES)
+        tcases.append(({'route': 'kwargs' if case['variant'] == 'kwargs' else 'from_dataframe', 'm': case['m'], 'pref': [],
+                        'names': vs, 'strict': False, 'n': n, 'cols': cols, 'extra': extra},
+                       ra.split(': ', 1)[1], case))
+    return 'same' if ra == rt else 'differs'
+
+
+TWO_SPELLINGS_FIXED = [
+    {'m': [['GDP', 'Y'], ['out', 'GDP']], 'variant': 'from_dataframe+kw', 'first': 'Y', 'second': 'GDP', 'v1': [1, 2, 3],
+     'v2': [5, 5, 5]},
+    {'m': [['GDP', 'Y'], ['out', 'GDP']], 'variant': 'kwargs', 'first': 'Y', 'second': 'out', 'v1': [1, 1, 1],
+     'v2': [2, 2, 2]},
+]
+
+
+def check_two_spellings(ctx, rep, rng, count):
+    b = base()
+    tcases = []
+    cases = [gen_two_spellings_case(rng, f) for f in TWO_SPELLINGS_FIXED] + [gen_two_spellings_case(rng) for _ in range(count)]
+    for case in cases:
+        if case is None or (not b.CYCLIC_OK[0] and not b.is_plain(dict(map(tuple, case['m'])))):
+            continue
+        run_two_spellings_case(ctx, rep, case, tcases)
+        rep.case(('J2', json.dumps(case, sort_keys=True)), nontrivial=True)
+    if not ctx.oracle_only and tcases:
+        outs = ctx.drive([b.line('alias_ctor_route', c) for c, _, _ in tcases])
+        for (c, impl, jc), a in zip(tcases, outs):
+            tgt = impl.split('=')[0]
+            got = dict(x.split('=') for x in a.split(';')) if '=' in a else {}
+            if got.get(tgt) != impl.split('=')[1]:
+                rep.disagree('one variable given through two spellings in one constructor call (the model: the later '
+                             'keyword wins, keywords after columns): model != impl', jc, a, impl)
+
+
 def check_ctor_routes(ctx, rep, rng, count):
     b = base()
     tcases = []
+    check_two_spellings(ctx, rep, rng, max(6, count // 15))
     for _ in range(count):
         case = gen_route_case(rng)
         m = dict(map(tuple, case['m']))
@@ -651,7 +759,7 @@ def run_form_case(ctx, rep, case, tcases=None):
     if _state(a_f) != _state(a_s):
         rep.violate(f'name-form-diverges:{decl}:declaration', f'ALIASES / PREFERRED_NAMES written as {decl}: the new '
                     'instance differs from the one of the class that declares the same names as plain str: '
-                    + b.diff_state(_state(a_f), _state(a_s)), case)
+                    + nice_diff(_state(a_f), _state(a_s)), case)
         return 'declaration'
     for i, op in enumerate(case['ops']):
         k = op['k']
@@ -679,14 +787,14 @@ def run_form_case(ctx, rep, case, tcases=None):
                     continue                 # nothing was written: the history goes on
                 return 'plain-class-form-sensitive'
             rep.violate(key, f'op {i} {k} through {shown} gave {_show(r_af, r_as)}; the same names as plain str gave '
-                        f'{_show(r_as, r_af)}' + ('' if s_af == s_as else '; state: ' + b.diff_state(s_af, s_as))
+                        f'{_show(r_as, r_af)}' + ('' if s_af == s_as else '; state: ' + nice_diff(s_af, s_as))
                         + f' (ALIASES={m}, declared as {decl}; the class without the mixin treats both forms alike)', case)
             return 'form'
         literal_alias = (not wrapped) and (any(x in b.strip_self(m) for x in texts) or k == 'eval')
         if not literal_alias and (r_af[:2] != r_tf[:2] or s_af != s_tf):
             rep.violate(key, f'op {i} {k} through {shown} gave {_show(r_af, r_tf)}; the class without the mixin through '
                         f'the canonical names {[b.chain_end(m, x) for x in texts]} in the same form gave {_show(r_tf, r_af)}'
-                        + ('' if s_af == s_tf else '; state: ' + b.diff_state(s_af, s_tf)) + f' (ALIASES={m})', case)
+                        + ('' if s_af == s_tf else '; state: ' + nice_diff(s_af, s_tf)) + f' (ALIASES={m})', case)
             return 'twin'
         if k == 'export' and r_af[0] == 'ok':
             regime = export_labels_ok(m, pref, [plain_text(c) for c in t_s.to_dataframe().columns], r_af[2])
@@ -709,9 +817,9 @@ def _show(r, other):
     b = base()
     if r[0] == 'ok' and isinstance(r[1], list) and r[1] and isinstance(r[1][0], tuple) and isinstance(r[1][0][0], str):
         if other[0] == 'ok' and isinstance(other[1], list):
-            return 'an instance with ' + (b.diff_state(dict(r[1]), dict(other[1])) or 'the same state')
+            return 'an instance with ' + (nice_diff(dict(r[1]), dict(other[1])) or 'the same state')
         return 'an instance'
-    return b.short(r[:2])
+    return pretty(tuple(r[:2]))
 
 
 def export_labels_ok(m, pref, plain_labels, new_labels):
